@@ -88,6 +88,12 @@ unsafe impl Exfiltrator for WithRawSiginfo {
     }
 
     fn init(&self, slot: &Self::Storage, _: c_int) {
+        // An earlier attempt to add the same signal may have initialized the slot and then failed
+        // to register (the OS refused the signal). Keep that channel; nothing else ever replaces
+        // it and the caller serializes the calls for one instance.
+        if !slot.0.load(Ordering::Acquire).is_null() {
+            return;
+        }
         let new = Box::default();
         let old = slot.0.swap(Box::into_raw(new), Ordering::Release);
         // We leak the pointer on purpose here. This is invalid state anyway and must not happen,
